@@ -152,6 +152,7 @@ type parser struct {
 	toks []tok
 	i    int
 	pkg  string
+	noIn int // >0 while parsing the value of a let: "in" then ends the value
 }
 
 type parseErr struct{ msg string }
@@ -204,7 +205,7 @@ var declKeywords = map[string]bool{"ghost": true, "pure": true, "pred": true, "e
 	"immutable": true, "opaque": true}
 var clauseKeywords = map[string]bool{"requires": true, "ensures": true, "modifies": true, "loop": true, "ghost": true, "assert": true,
 	"arith": true, "float": true, "effects": true, "track_init": true, "carveout": true, "decreases": true, "invariant": true,
-	"trusted": true, "replay": true, "tracks": true, "strings": true, "assume": true, "allocates": true, "havoc": true, "nopanic": true}
+	"trusted": true, "replay": true, "tracks": true, "ghostlocal": true, "strings": true, "assume": true, "allocates": true, "havoc": true, "nopanic": true}
 
 func parseSpecFile(file, pkg string, lines []srcLine) (decls []*Decl, err error) {
 	toks, err := lexSpec(file, lines)
@@ -605,6 +606,10 @@ func (p *parser) clauses() []*Clause {
 			}
 		case "trusted", "nopanic":
 			c.Kind = t.s
+		case "ghostlocal":
+			c.Kind = "ghostlocal"
+			c.Str = p.ident()
+			c.Type = p.typeExpr()
 		case "carveout":
 			c.Kind = "carveout"
 			c.Label = p.optLabel()
@@ -710,7 +715,7 @@ func (p *parser) cmp() Expr {
 		if t.kind == "op" && (t.s == "==" || t.s == "!=" || t.s == "<" || t.s == "<=" || t.s == ">" || t.s == ">=") {
 			p.next()
 			l = &EBinary{t.p, t.s, l, p.add()}
-		} else if t.kind == "id" && t.s == "in" {
+		} else if t.kind == "id" && t.s == "in" && p.noIn == 0 {
 			p.next()
 			l = &EBinary{t.p, "in", l, p.add()}
 		} else {
@@ -825,7 +830,10 @@ func (p *parser) primary() Expr {
 	case "op":
 		if t.s == "(" {
 			p.next()
+			save := p.noIn
+			p.noIn = 0
 			e := p.expr()
+			p.noIn = save
 			p.expect(")")
 			return e
 		}
@@ -867,7 +875,9 @@ func (p *parser) primary() Expr {
 			p.next()
 			n := p.ident()
 			p.expect("=")
+			p.noIn++
 			v := p.expr()
+			p.noIn--
 			p.expect("in")
 			b := p.expr()
 			return &ELet{t.p, n, v, b}
